@@ -74,6 +74,8 @@ func init() {
 			{ID: "C02.14", Desc: "each stored validator is put on the validation request whatever the other one is", Run: func(c *Ctx) { ruleEachValidatorOnItsOwn(c, "C02.14") }, MinSites: 1},
 			{ID: "C02.15", Desc: "a valid Date of the origin is kept (Expires minus Date is the origin's lifetime, also when its clock runs ahead)", Run: func(c *Ctx) { ruleDateRepair(c, "C02.15") }, MinSites: 1},
 			{ID: "C02.16", Desc: "`Expires: 0` is an explicit expiry for a must-revalidate response (presence is not validity)", Run: func(c *Ctx) { ruleExpiresFoundIsPresence(c, "C02.16") }, MinSites: 1},
+			{ID: "C02.17", Desc: "on the 304 branch the merge of the 304's fields precedes the write-back on every path", Run: func(c *Ctx) { ruleMergeBeforeWriteBack(c, "C02.17") }, MinSites: 1},
+			{ID: "C02.18", Desc: "the revalidation context's request directives are the parser's result for the request (no reduced copy)", Run: func(c *Ctx) { ruleContextCarriesParsedDirectives(c, "C02.18") }, MinSites: 2},
 		},
 	})
 }
